@@ -1,8 +1,113 @@
 //! Verification hook (compiled only with `--cfg quinn_rs_quinn_verif`).
+//!
+//! Component `antiamp`: `PathData::anti_amplification_blocked` and the path byte counters
+//! (connection/paths.rs). The counters are plain fields updated inline by `Connection`
+//! (`total_recvd = total_recvd.saturating_add(len)` in `handle_event`/`handle_coalesced`,
+//! `total_recvd = len` in `handle_first_packet`, `total_sent = total_sent.saturating_add(len)`
+//! at the end of `poll_transmit`); this hook performs the same field updates and calls the real
+//! predicate. The call sites themselves are covered by the simulator-level check.
+//!
+//! Ops:
+//!   [0, validated]        fresh path with that `validated` flag          -> [0]
+//!   [1, n]                total_recvd saturating_add n                   -> [total_recvd]
+//!   [2, n]                total_recvd = n (first packet)                 -> [total_recvd]
+//!   [3, n]                total_sent saturating_add n                    -> [total_sent]
+//!   [4, bytes]            anti_amplification_blocked(bytes)              -> [0|1]
+//!   [5]                   budget probe: largest s in [0, 2^40] with !blocked(s), found by
+//!                         bisection over the real predicate; -1 if blocked(0)  -> [s]
+//!   [6, seg, max, d0, k]  one `poll_transmit` batch abstracted: before datagram i (< max) consult
+//!                         blocked(seg_i * i + 1) exactly as the loop does (seg_0 = seg, after the
+//!                         first datagram seg_i = d0); datagram 0 has d0 bytes (d0 <= seg), the
+//!                         following ones d0 bytes, at most k datagrams wanted; afterwards
+//!                         total_sent saturating_add(total)  -> [datagrams, bytes, total_sent]
+//!   [7, v]                set validated                                   -> [v]
+//! Overflow of `total_recvd * 3` or `total_sent + bytes` panics in debug builds: PANIC.
 #![allow(missing_docs, dead_code, unused_imports, unreachable_pub, clippy::all)]
 use super::{Ops, Outs};
+use crate::connection::paths::PathData;
+use crate::{Instant, TransportConfig};
 
-/// Interpret `ops` for component `comp`; `None` if `comp` is not served by this module.
-pub(crate) fn run(_comp: &str, _ops: &Ops) -> Option<Outs> {
-    None
+fn antiamp(ops: &Ops) -> Outs {
+    let now = Instant::now();
+    let cfg = TransportConfig::default();
+    let remote = "127.0.0.1:4433".parse().unwrap();
+    let mut path = PathData::new(remote, false, None, 0, now, &cfg);
+    let mut outs = Vec::new();
+    for op in ops {
+        let o = match op[0] {
+            0 => {
+                path = PathData::new(remote, false, None, 0, now, &cfg);
+                path.validated = op[1] != 0;
+                vec![0]
+            }
+            1 => {
+                path.total_recvd = path.total_recvd.saturating_add(op[1] as u64);
+                vec![path.total_recvd as i128]
+            }
+            2 => {
+                path.total_recvd = op[1] as u64;
+                vec![path.total_recvd as i128]
+            }
+            3 => {
+                path.total_sent = path.total_sent.saturating_add(op[1] as u64);
+                vec![path.total_sent as i128]
+            }
+            4 => vec![path.anti_amplification_blocked(op[1] as u64) as i128],
+            5 => {
+                if path.anti_amplification_blocked(0) {
+                    vec![-1]
+                } else {
+                    let (mut lo, mut hi) = (0u64, 1u64 << 40);
+                    if !path.anti_amplification_blocked(hi) {
+                        vec![hi as i128]
+                    } else {
+                        // invariant: !blocked(lo), blocked(hi)
+                        while hi - lo > 1 {
+                            let mid = lo + (hi - lo) / 2;
+                            if path.anti_amplification_blocked(mid) {
+                                hi = mid;
+                            } else {
+                                lo = mid;
+                            }
+                        }
+                        vec![lo as i128]
+                    }
+                }
+            }
+            6 => {
+                let (mut seg, max, d0, k) = (op[1] as u64, op[2] as u64, op[3] as u64, op[4] as u64);
+                let mut n = 0u64;
+                let mut total = 0u64;
+                while n < k {
+                    if n >= max {
+                        break;
+                    }
+                    if path.anti_amplification_blocked(seg * n + 1) {
+                        break;
+                    }
+                    total += d0;
+                    n += 1;
+                    if n == 1 {
+                        seg = d0;
+                    }
+                }
+                path.total_sent = path.total_sent.saturating_add(total);
+                vec![n as i128, total as i128, path.total_sent as i128]
+            }
+            7 => {
+                path.validated = op[1] != 0;
+                vec![op[1]]
+            }
+            _ => vec![-1],
+        };
+        outs.push(o);
+    }
+    outs
+}
+
+pub(crate) fn run(comp: &str, ops: &Ops) -> Option<Outs> {
+    match comp {
+        "antiamp" => Some(antiamp(ops)),
+        _ => None,
+    }
 }
